@@ -54,5 +54,7 @@ print("seeded changes: %d, caught by at least one check: %d, caught by the check
     len(seeds), sum(1 for r in seeds if r[2]), sum(1 for r in seeds if r[4])))
 rev = [r for r in rows if r[0].startswith("revert")]
 print("fix reverts: %d, caught (quick or thorough): %d" % (len(rev), sum(1 for r in rev if r[2] or r[3])))
-ben = [r for r in rows if r[0].startswith("benign")]
-print("benign edits: %d, alarms: %d" % (len(ben), sum(1 for r in ben if r[2])))
+ben = [r for r in rows if r[0].startswith("benign") and not r[0].startswith("benign_rf_")]
+print("own behaviour-preserving edits: %d, alarms: %d" % (len(ben), sum(1 for r in ben if r[2])))
+rf = [r for r in rows if r[0].startswith("benign_rf_")]
+print("independent refactorings: %d, alarms: %d" % (len(rf), sum(1 for r in rf if r[2])))
